@@ -231,6 +231,7 @@ func scenarioC02(r *Run) {
 	} else {
 		var spies []*SpySigner
 		r.Op("ISSUE", "%s", spec)
+		r.LeaveAlgToLibrary = t.Bool(1, 6, "c02.algtolib")
 		is, err := r.LibIssue(spec, Spelling{T: t, Labels: true, Values: true}, t.Bool(1, 2, "c02.typedalg"), ent,
 			func(i int, k *KeyPair, inner cose.Signer) cose.Signer {
 				s := &SpySigner{Inner: inner, Alg: inner.Algorithm()}
